@@ -1,6 +1,7 @@
 /-
   C16 — Verifier raises no false alarms.   Property theorems only.
 -/
+import RaftWal.Proofs.VerifierDecide
 import RaftWal.Proofs.VerifierReach
 import RaftWal.Proofs.VerifierCluster
 import RaftWal.Generated.Verifier
@@ -138,5 +139,23 @@ theorem cluster_nonvacuous : ∃ (opsL opsF : List NodeOp) (cp cp' l2 : Log) (cs
 -- non-vacuity: a concrete follower history reaches a state with a live running sum
 example : ∃ ops : List NodeOp, (({ resetOnDelete := true } : Node).run ops).sumStartIdx ≠ 0 :=
   ⟨[.store [{ index := 5, term := 1, typ := 0, data := [1], ext := [], time := some WTime.zero }]], by decide⟩
+
+/-! ### the conditions the clean-history argument hinges on, translated from the source on every run into Lean functions
+    (Generated/VerifierDecide.lean) and proved to be the model's, for all arguments -/
+
+/-- a truncation restarts the running sum exactly when it reaches into the summed range -/
+theorem delete_reset_condition_from_source (n : Verifier.Node) (mx : Nat) :
+    (n.sumStartIdx ≠ 0 ∧ mx ≥ n.sumStartIdx) ↔ Generated.verifierDeleteResetsSum n.sumStartIdx mx = true :=
+  Verifier.delete_resets_eq_source n mx
+
+/-- a node that no longer holds the start of the range answers ErrRangeMismatch, not corruption -/
+theorem range_mismatch_condition_from_source (n : Verifier.Node) (r : Verifier.Report) :
+    (n.store.firstIndex > r.start) ↔ Generated.verifyRangeMismatch n.store.firstIndex r.start = true :=
+  Verifier.range_mismatch_eq_source n r
+
+/-- a follower whose running sum does not start where the leader's did makes no in-flight claim -/
+theorem written_sum_void_condition_from_source (cpStart startIdx : Nat) :
+    (cpStart ≠ startIdx) ↔ Generated.followerSumNotComparable cpStart startIdx = true :=
+  Verifier.written_void_eq_source cpStart startIdx
 
 end RaftWal.C16
